@@ -4,7 +4,8 @@ from __future__ import annotations
 from vlib import gen_multicore as G
 from vlib.ctx import PassTimeout, parse, run_pass, shared_ctx, time_limit, to_text
 from vlib.interp import InterpError, StepBudget, UseBeforeDef, dominance_errors
-from vlib.machine_multicore import (BARRIER_CALL, conflicts_in, core_guard_ancestors, preorder_index, run_core, seq_cmp, tag_of)
+from vlib.machine_multicore import (BARRIER_CALL, conflicts_in, core_guard_ancestors, depends_on_core_idx, preorder_index, run_core, seq_cmp,
+                                    tag_of)
 from vlib.runner import Info, Outside, Reject, Sub, Violation
 
 ID = "C13"
@@ -12,16 +13,18 @@ RULE = (
     "Recipes are single-block functions over 1-2 shared 16-element memref arguments plus allocs and 4-element subviews of them (static "
     "and induction-variable offsets, views of views; created before or after their producers), with statements memref.copy (data mover), "
     "linalg.generic with/without library_call / dart.operation / dart.schedule (compute core), neutral users (\"test.op\"(memref)), "
-    "pre-existing snax.cluster_sync_op, memref.dealloc, straight-line and inside scf.for nests up to depth 3 whose trip counts (0..3) are "
-    "run-time inputs, producers and consumers at different depths; 2 cores (compute 0, data mover 1) and 3 cores (idle core 1); 2 input "
+    "pre-existing snax.cluster_sync_op, memref.dealloc, straight-line, inside scf.for nests up to depth 3 whose trip counts (0..3) are "
+    "run-time inputs, and inside scf.if with and without else (conditions: i1 arguments taking both outcomes across the two input vectors, "
+    "or comparisons on an induction variable; core-independent), nested with the loops, producers before the if and consumers in "
+    "either/both branches and after it, pre-existing barriers in one branch only; producers and consumers at different depths; 2 cores (compute 0, data mover 1) and 3 cores (idle core 1); 2 input "
     "vectors. The real insert-sync-barrier is applied (stage A), then dispatch-regions{nb_cores} and snax-to-func (stage B). The result is "
     "executed once per core on the multi-core barrier machine; in stage A the core of an op is the one fixed by the generator, in stage B "
     "the core-id guards in the IR decide. Oracle: (i) every core passes the same sequence of barrier sites (same iteration vectors) and no "
     "barrier sits under a core-id guard; (ii) within one epoch no access of one core conflicts with an access of another core (same root "
     "buffer, overlapping interval, at least one write; a dealloc counts as a write of the whole buffer by every core). Read/read pairs are "
     "not required to be separated. insert-sync-barrier must not change anything but add barriers. "
-    "Non-trivial: the program has a cross-core conflicting pair (ignoring barriers) and one such pair is loop-carried or goes through two "
-    "different SSA views; distinct by recipe hash."
+    "Non-trivial: the program has a cross-core conflicting pair (ignoring barriers) and one such pair is loop-carried, goes through two "
+    "different SSA views, or has an access inside an scf.if branch; distinct by recipe hash."
 )
 ASSUMPTIONS = [
     "xDSL 0.70 compatibility shim (vlib/compat.py)",
@@ -40,10 +43,22 @@ LOWERED_AWAY = ("snax.cluster_sync_op", "memref.dealloc")  # snax-to-func replac
 VIEW_SIG = "insert-sync-barrier: conflict through distinct views of one root buffer"
 CROSS_DEPTH_SIG = "insert-sync-barrier: loop-carried conflict between ops that are not in the same loop body"
 ZERO_TRIP_SIG = "insert-sync-barrier: conflict left open by a barrier inside a loop that runs zero times"
+BRANCH_SIG = "insert-sync-barrier: conflict left open by a barrier inside an scf.if branch that is not taken"
 
 
 def is_barrier(op):
     return op.name == "snax.cluster_sync_op" or (op.name == "func.call" and op.callee.root_reference.data == BARRIER_CALL)
+
+
+def in_user_branch(op):
+    """Is op nested in an scf.if of the program (not a core-id guard)?"""
+    guards = core_guard_ancestors(op)
+    p = op.parent_op()
+    while p is not None:
+        if p.name == "scf.if" and p not in guards:
+            return True
+        p = p.parent_op()
+    return False
 
 
 def eff_parent(op):
@@ -61,6 +76,7 @@ class Ctx:
         self.pre = preorder_index(mod)
         self.barrier_idx = [i for o, i in self.pre.items() if is_barrier(o)]
         self._has_barrier = {}
+        self._guard = {}
 
     def barrier_since_last_toucher(self, dealloc_op):
         """Is there a barrier (in walk order) between the last op that has the deallocated SSA value as operand/result and the dealloc?"""
@@ -80,7 +96,7 @@ class Ctx:
         return r
 
 
-def classify(a, b, cx: Ctx, skipped):
+def classify(a, b, cx: Ctx, skipped, skipped_branches=()):
     """Signature for one conflicting pair of accesses on different cores in the same epoch."""
     ia, ib = (a.op, a.iters), (b.op, b.iters)
     order, loop = seq_cmp(ia, ib, cx.pre)
@@ -108,7 +124,21 @@ def classify(a, b, cx: Ctx, skipped):
         inst = (f, its)
         if seq_cmp(fi, inst, cx.pre)[0] < 0 and seq_cmp(inst, si, cx.pre)[0] < 0:
             return ZERO_TRIP_SIG, hazard, loop
+    for if_op, region, its in skipped_branches:
+        if not cx.has_barrier(region):
+            continue
+        inst = (if_op, its)
+        if seq_cmp(fi, inst, cx.pre)[0] < 0 and seq_cmp(inst, si, cx.pre)[0] < 0:
+            return BRANCH_SIG, hazard, loop
     return f"race:{'loop-carried' if loop is not None else 'forward'}:{hazard}", hazard, loop
+
+
+def core_guard(if_op, cx):
+    r = cx._guard.get(if_op)
+    if r is None:
+        r = depends_on_core_idx(if_op.cond)
+        cx._guard[if_op] = r
+    return r
 
 
 def barrier_seq(m):
@@ -135,7 +165,7 @@ def check_stage(mod, fname, args, n, kinds, stage, detail):
 def races(ms, cx, stage):
     out = {}
     for a, b in conflicts_in([m.accesses for m in ms]):
-        sig, hazard, loop = classify(a, b, cx, ms[0].skipped)
+        sig, hazard, loop = classify(a, b, cx, ms[0].skipped, [x for x in ms[0].skipped_branches if not core_guard(x[0], cx)])
         if sig not in out:
             out[sig] = dict(stage=stage, hazard=hazard, loop_carried=loop is not None, access_a=a.describe(), access_b=b.describe())
     return out
@@ -223,6 +253,8 @@ def prop(r):
         for a, b in conflicts_in([m.accesses for m in ms_a], same_epoch_only=False):
             _, loop = seq_cmp((a.op, a.iters), (b.op, b.iters), cx_sb.pre)
             pot.add("view" if a.ssa is not b.ssa else ("loop-carried" if loop is not None else "forward"))
+            if in_user_branch(a.op) or in_user_branch(b.op):
+                pot.add("in-branch")
             if "dealloc" in (a.what, b.what):
                 pot.add("dealloc")
         ra = races(ms_a, cx_sb, "A: after insert-sync-barrier, cores assigned by construction")
@@ -235,7 +267,7 @@ def prop(r):
     if n_exec == 0:
         raise Outside("all executions exceeded the step budget")
 
-    known_order = [VIEW_SIG, CROSS_DEPTH_SIG, ZERO_TRIP_SIG]
+    known_order = [VIEW_SIG, CROSS_DEPTH_SIG, ZERO_TRIP_SIG, BRANCH_SIG]
     if found:
         fin_text = None
         for sig in list(found):
@@ -249,11 +281,11 @@ def prop(r):
     f = built.features
     cls = [f"N:{n}", f"depth:{built.max_depth}"] + sorted(trips_cls) + [f"pot:{p}" for p in sorted(pot)]
     cls += ["straight-line" if "loop" not in f else ("nested-loop" if "nested" in f else "loop")]
-    for name in ("view", "view_dynamic", "dealloc", "pre_barrier"):
+    for name in ("view", "view_dynamic", "dealloc", "pre_barrier", "if", "if_else", "if_in_loop", "pre_barrier_in_branch", "dispatchable_in_branch"):
         if name in f:
             cls.append(name)
     cls.append("barriers-inserted" if nbar_sb > nbar_pre else "no-barrier-inserted")
-    nontrivial = bool(pot) and ("view" in pot or "loop-carried" in pot)
+    nontrivial = bool(pot) and ("view" in pot or "loop-carried" in pot or "in-branch" in pot)
     sample = None
     if nontrivial and _SAMPLES[0] < 6:
         _SAMPLES[0] += 1
@@ -264,5 +296,5 @@ def prop(r):
 SUBS = [
     Sub("barriers", lambda tier: G.program_c13(tier), prop, budget=dict(quick=5000, thorough=120000),
         floor=dict(quick=350, thorough=12000),
-        nontrivial_rule="a cross-core conflicting pair exists (barriers ignored) and one such pair is loop-carried or goes through two different SSA views"),
+        nontrivial_rule="a cross-core conflicting pair exists (barriers ignored) and one such pair is loop-carried, goes through two different SSA views, or has an access inside an scf.if branch"),
 ]
